@@ -1055,6 +1055,9 @@ func (m *Model) eval(t *Term) any {
 		panic(evalErr{"uninterpreted function " + t.op})
 	}
 	if strings.HasPrefix(t.op, "in_re:") {
+		if re, ok := regLanNative[t.op[6:]]; ok {
+			return re.MatchString(m.eval(t.args[0]).(string))
+		}
 		panic(evalErr{"in_re not evaluable"})
 	}
 	switch t.op {
